@@ -27,35 +27,15 @@ def strvNext (s : Str) : Res :=
 
 end Impl
 
-/-- C05 (list keys): whenever systemd's extract_first_word(UNQUOTE|RETAIN_ESCAPE) returns a word,
-    SplitStrv::next returns the same word and the same rest -/
-theorem impl_strv_of_spec (q acc s w rest)
-    (h : Spec.word strvFlags q false acc s = .word w rest) : Impl.strvWord q acc s = .word w rest := by
-  induction s generalizing q acc with
-  | nil =>
-    cases q with
-    | none => rw [Spec.word] at h; simpa [Impl.strvWord] using h
-    | some q => rw [Spec.word] at h; simp at h
-  | cons c r ih =>
-    cases q with
-    | none =>
-      rw [Spec.word] at h
-      simp only [sf_unquote, Bool.and_true, sf_retain, Bool.not_true, Bool.and_false, Bool.false_eq_true,
-        if_false] at h
-      simp only [Impl.strvWord, implSep_eq, implDropSeps_eq]
-      split
-      · rename_i hq; simp only [hq, if_true] at h; exact ih _ _ h
-      · rename_i hq
-        simp only [hq, Bool.false_eq_true, if_false] at h
-        split
-        · rename_i hs; simpa [hs] using h
-        · rename_i hs; simp only [hs, Bool.false_eq_true, if_false] at h; exact ih _ _ h
-    | some q =>
-      rw [Spec.word] at h
-      simp only [sf_retain, Bool.not_true, Bool.and_false, Bool.false_eq_true, if_false] at h
-      simp only [Impl.strvWord]
-      split
-      · rename_i hq; simp only [hq, if_true] at h; exact ih _ _ h
-      · rename_i hq; simp only [hq, Bool.false_eq_true, if_false] at h; exact ih _ _ h
+/-- Rust iterator semantics: iteration ends at the first `None` (no word left, or an escape error) -/
+def collectImpl (next : Str → Res) : Nat → Str → List Str
+  | 0, _ => []
+  | fuel+1, s => match next s with
+    | .word w rest => w :: collectImpl next fuel rest
+    | _ => []
+
+/-- `SplitWord::new(raw).collect()` / `SplitStrv::new(raw).collect()` -/
+def splitArgs (raw : Str) : List Str := collectImpl Impl.next (raw.length + 1) raw
+def splitStrv (raw : Str) : List Str := collectImpl Impl.strvNext (raw.length + 1) raw
 
 end P
